@@ -34,7 +34,8 @@ var callDeadline = 10 * time.Second
 type Backend struct {
 	Name string
 	dir  string
-	st   store.Store
+	st   store.Store // the adapter itself: audits and direct store observations never go through a wrapper
+	in   *injector   // set when the handle runs over the fault-injecting wrapper
 	db   *clover.DB
 	open bool
 	dead bool // a call timed out: the handle may be wedged, stop using it
@@ -73,10 +74,11 @@ func (b *Backend) reopen() error {
 	if err != nil {
 		return err
 	}
+	var used store.Store = st
 	if b.wrap != nil {
-		st = b.wrap(st)
+		used = b.wrap(st)
 	}
-	db, err := clover.OpenWithStore(st)
+	db, err := clover.OpenWithStore(used)
 	if err != nil {
 		return err
 	}
@@ -895,7 +897,28 @@ func (x *Exec) Step(e E, audit bool) E {
 			runs = append(runs, E{"be": b.Name, "res": E{"st": "timeout", "err": "timeout"}})
 			continue
 		}
+		if b.in != nil {
+			if f, ok := e["fault"].(E); ok {
+				b.in.arm(f["mode"].(string), toInt(f["k"]))
+			} else {
+				b.in.reset()
+			}
+		}
 		res := x.Run(b, e, genIds)
+		var txlog E
+		if b.in != nil {
+			b.in.mu.Lock()
+			txlog = E{"beginw": b.in.begins, "commit": b.in.commits, "calls": b.in.count}
+			if f, ok := e["fault"].(E); ok {
+				fired := 0
+				if b.in.fired {
+					fired = 1
+				}
+				line["fault"] = E{"mode": f["mode"], "k": f["k"], "fired": fired, "kind": b.in.kind}
+			}
+			b.in.armed = false
+			b.in.mu.Unlock()
+		}
 		if bi == 0 {
 			if ids, ok := res["ids"]; ok && res["st"] == "ok" {
 				for _, id := range toList(ids) {
@@ -904,6 +927,9 @@ func (x *Exec) Step(e E, audit bool) E {
 			}
 		}
 		run := E{"be": b.Name, "res": res}
+		if txlog != nil {
+			run["tx"] = txlog
+		}
 		if audit && b.open && !b.dead {
 			run["audit"] = x.Audit(b)
 		}
